@@ -195,6 +195,20 @@ def mk_app(fn, args=(), kw=()):
                 and not isinstance(idx, Tup) and not (isinstance(idx, App) and idx.fn == "slice") and idx != Const(None):
             # stack([a, b], axis=-1)[j] = stack([a[j], b[j]], axis=-1)
             return App("stack", (Tup([mk_app("getitem", [it, idx]) for it in base.args[0].items]),), base.kw)
+        if isinstance(idx, Tup) and type(idx) is Tup and idx.items.count(Const(Ellipsis)) == 1 and _full in idx.items:
+            # a full slice next to the Ellipsis is absorbed by it: x[..., :, j] = x[..., j], x[:, ..., j] = x[..., j]
+            items = list(idx.items)
+            e = items.index(Const(Ellipsis))
+            changed = False
+            while e + 1 < len(items) and items[e + 1] == _full:
+                del items[e + 1]
+                changed = True
+            while e > 0 and items[e - 1] == _full:
+                del items[e - 1]
+                e -= 1
+                changed = True
+            if changed:
+                return mk_app("getitem", [base, items[0] if len(items) == 1 else Tup(items)])
         if isinstance(idx, Tup) and type(idx) is Tup and Const(Ellipsis) not in idx.items and idx.items and idx.items[-1] == _full:
             # trailing full slices select everything: x[None, :] = x[None]
             items = list(idx.items)
